@@ -38,8 +38,11 @@ Definition atom_eqb (a b : atom) : bool :=
   str_eqb (a_name a) (a_name b) && mop_eqb (a_op a) (a_op b) && str_eqb (a_value a) (a_value b) && Bool.eqb (a_rev a) (a_rev b).
 
 Fixpoint mem_str (x : str) (l : list str) : bool := match l with [] => false | y :: l' => str_eqb x y || mem_str x l' end.
-(* OrderedSet.__eq__ is collections.abc.Set equality: same length (no duplicates) and inclusion *)
-Definition set_eqb (a b : list str) : bool := Nat.eqb (List.length a) (List.length b) && forallb (fun x => mem_str x b) a.
+(* OrderedSet.__eq__ is collections.abc.Set equality: len(self) == len(other) and self <= other.  An OrderedSet never
+   holds duplicates, so for the values that occur this is mutual inclusion; the model checks both inclusions (the
+   same Boolean on duplicate-free lists), which is what makes == a congruence for evaluation without a NoDup argument. *)
+Definition set_eqb (a b : list str) : bool :=
+  Nat.eqb (List.length a) (List.length b) && forallb (fun x => mem_str x b) a && forallb (fun x => mem_str x a) b.
 
 (* Python == on markers *)
 Fixpoint marker_eqb (a b : marker) : bool :=
